@@ -44,6 +44,14 @@ def _worker(conn, func, cases, start):
     except Exception:
         pass
     signal.signal(signal.SIGALRM, _alarm)
+    # third-party parsers print warnings for corrupt input: the worker's output is not part of the verdict
+    try:
+        null = os.open(os.devnull, os.O_WRONLY)
+        os.dup2(null, 1)
+        os.dup2(null, 2)
+        os.close(null)
+    except OSError:
+        pass
     for i in range(start, len(cases)):
         conn.send((i, "start", None))
         fds0 = _fd_table()
